@@ -21,7 +21,9 @@ CLAIM = ("Every parameter vector within K deviations of the default (K=1 quick, 
 LEVEL_NOTE = ("trusted: numpy, the transcription of each documented EOS in props/C03.py, the memoised Guderley exponent (keyed by the hash of eexp.py); "
               "assumed: defects confined to parameter values between lattice values are not seen")
 BOUND = {"quick": "K=1 deviations from the default vector, all classes", "thorough": "K=2 deviations"}
-RULE = ("tasks = all parameter vectors with <=K deviations from the default over each family's alphabet; per vector all "
+RULE = ("[black-box Noh additionally: every sequence of <=4 (quick) / <=5 (thorough) public operations over {call, set guess, "
+        "solve_jump_conditions, EOS-object setter, edit initial_conditions} ending in a call, on a fresh object per sequence] "
+        "tasks = all parameter vectors with <=K deviations from the default over each family's alphabet; per vector all "
         "lattice times x (24 lattice points + 6 points straddling each discontinuity located from the fields); an evaluation "
         "is one public solver call; a case (family, vector, time, point) is non-trivial when pressure and density are both "
         "non-zero and finite there (cold/vacuum states satisfy every EOS trivially); distinct by (family, vector, time, point index)")
@@ -43,11 +45,17 @@ def families():
 def tasks(tier, seed):
     out = []
     for f in families():
-        k = K[tier] if f["cost"] != "heavy" else min(K[tier], f.get("maxK", 1))
-        if tier == "quick" and f["cost"] == "heavy":
-            k = f.get("quickK", 0)
+        if tier == "quick":
+            k = f.get("quickK", 0 if f["cost"] == "heavy" else K[tier])
+        else:
+            k = min(K[tier], f.get("maxK", 1)) if f["cost"] == "heavy" else max(K[tier], f.get("quickK", 0))
         for dev in lattice.enumerate_checked(f["alphabet"], k):
             out.append({"family": f["name"], "dev": dev})
+    from xpmc import hydro_more
+    for tag in hydro_more.BBNOH_EOS:
+        for geom in (1, 2, 3):
+            # the tabulated aluminium EOS has no setter and its Newton solves are slow (many end in IterationError): one level less
+            out.append({"family": "BBNoh_seq", "eos": tag, "geometry": geom, "depth": SEQ_DEPTH[tier] - (1 if tag[0] == "aluminum" else 0)})
     return out
 
 
@@ -61,9 +69,11 @@ def find_contact(jumps, names):
         L, R = np.asarray(j["left"], float), np.asarray(j["right"], float)
         rj = lambda k: abs(L[k] - R[k]) / max(abs(L[k]), abs(R[k]), 1e-300)
         cs = max(abs(L[ip] / L[ir]), abs(R[ip] / R[ir])) ** 0.5
-        if rj(ip) < 1e-7 and abs(L[iu] - R[iu]) < 1e-7 * cs and max(rj(ir), rj(ie)) > 1e-4:
-            cands.append(j)
-    return cands[0] if len(cands) == 1 else None
+        if rj(ip) < 1e-7 and abs(L[iu] - R[iu]) < 1e-7 * cs and rj(ir) > 1e-4:
+            cands.append((rj(ir), j))
+    # a material interface carries a density jump; if several discontinuities qualify, the interface is the one with the
+    # largest density jump (a jump in e alone, with p and rho continuous, is not a contact -- it is an EOS inconsistency)
+    return max(cands, key=lambda c: c[0])[1] if cands else None
 
 
 def eos_relations(f, cfg, sol, solver, t, jumps=None):
@@ -161,7 +171,109 @@ def eos_relations(f, cfg, sol, solver, t, jumps=None):
     return rel
 
 
+# ---------------------------------------------------------------------------------------------------------------
+# black-box Noh: the EOS relation after every sequence of public operations (the shocked state is cached on the object)
+# ---------------------------------------------------------------------------------------------------------------
+SEQ_OPS = ["call", "guess", "solve", "eos_mut", "ic"]
+SEQ_DEPTH = {"quick": 4, "thorough": 5}
+SEQ_PTS = [0.02, 0.05, 0.1, 0.3, 0.6]
+
+
+def _seq_apply(s, eos, tag, op):
+    """Returns 'dirty' (True/False/None=unchanged) and, for a call, the solution."""
+    if op == "call":
+        return None, call(s, np.array(SEQ_PTS), 0.6)
+    if op == "guess":
+        s.set_new_solver_initial_guess([5.0, 1.0, 1.0])
+        return False, None
+    if op == "tol":
+        s.set_new_solver_tolerance(1.0e-8)
+        return False, None
+    if op == "solve":
+        s.solve_jump_conditions()
+        return False, None
+    if op == "eos_mut":
+        if tag[0] in ("noble_abel", "carnahan"):
+            eos.set_new_co_volume(tag[2] * 3.0)
+        elif tag[0] == "stiff":
+            eos.set_new_sound_speed(tag[2] * 1.3)
+        else:
+            return None, None
+        return True, None
+    if op == "ic":
+        s.initial_conditions["velocity"] = -2.0
+        return True, None
+    raise ValueError(op)
+
+
+def run_bbnoh_sequences(task):
+    import itertools
+    from xpmc import hydro_more
+    tag, geom, depth = task["eos"], task["geometry"], task["depth"]
+    res = {"evals": 0, "nontrivial": [], "violations": [], "counters": {}, "sample": None}
+    C = res["counters"]
+    dg = Digest()
+    reported = set()
+    nseq = 0
+    for d in range(1, depth + 1):
+        for seq in itertools.product(SEQ_OPS, repeat=d):
+            if seq[-1] != "call":
+                continue          # only sequences that end in an observation
+            nseq += 1
+            try:
+                s = hydro_more.bbnoh_build({"geometry": geom, "eos": tag, "guess": [5.0, 1.0, 1.0],
+                                            "density": 1, "velocity": -1, "pressure": 0})
+            except Inadmissible:
+                C["inadmissible_vectors"] = C.get("inadmissible_vectors", 0) + 1
+                continue
+            eos = s._xp_eos
+            dirty = False
+            try:
+                for k, op in enumerate(seq):
+                    dflag, sol = _seq_apply(s, eos, tag, op)
+                    if dflag is not None:
+                        dirty = dflag
+                    if sol is None:
+                        continue
+                    res["evals"] += 1
+                    rho = np.asarray(sol["density"], float)
+                    p = np.asarray(sol["pressure"], float)
+                    e = np.asarray(sol["specific_internal_energy"], float)
+                    dg.add(rho, p, e)
+                    if dirty:
+                        # the EOS object / initial state was changed without a re-solve: the documented flow is to call
+                        # solve_jump_conditions() (or a setter) first, so nothing is demanded of this call
+                        C["calls_on_unsolved_changes_skipped"] = C.get("calls_on_unsolved_changes_skipped", 0) + 1
+                        continue
+                    ok = np.isfinite(rho) & (rho > 0)
+                    with np.errstate(all="ignore"):
+                        pe = np.array([eos.P(r_, e_) if o else 0.0 for r_, e_, o in zip(rho, e, ok)], float)
+                    m = oracle.mismatch(np.where(ok, p, 0.0), pe, floor=1e-13)
+                    res["nontrivial"].append("bbseq|%s|%d|%s|%d" % (tag, geom, "".join(o[0] for o in seq), k))
+                    if m.max() > 1e-9:
+                        key = seq[:k + 1]
+                        if key not in reported:
+                            reported.add(key)
+                            if len(reported) <= 3:       # shortest first (enumeration order); cap the list
+                                res["violations"].append({
+                                    "solver": "BBNoh", "cfg": {"geometry": geom, "eos": tag},
+                                    "clause": "eos:p=EOS.P(rho,e):after-operation-sequence",
+                                    "where": {"sequence": list(key)}, "value": float(m.max()), "tol": 1e-9,
+                                    "detail": {"x": float(SEQ_PTS[int(np.argmax(m))])}})
+            except Exception as ex:
+                key = "seq_exc:%s" % type(ex).__name__
+                C[key] = C.get(key, 0) + 1
+                dg.add("exc", type(ex).__name__)
+    C["operation_sequences"] = nseq
+    res["sample"] = {"family": "BBNoh_seq", "eos": tag, "geometry": geom, "depth": depth, "alphabet": SEQ_OPS,
+                     "sequences_ending_in_call": nseq, "example": ["call", "eos_mut", "solve", "call"]}
+    res["digest"] = dg.hex()
+    return res
+
+
 def run_task(task):
+    if task["family"] == "BBNoh_seq":
+        return run_bbnoh_sequences(task)
     f = hydro.by_name(task["family"])
     cfg = lattice.full_cfg(f["alphabet"], task["dev"])
     dg = Digest()
